@@ -1,7 +1,11 @@
 #!/bin/bash
-# seedall.sh [pattern]: run every filed seed (and regression/ad-hoc mutant) against the check of its property; print one line each.
+# seedall.sh [-j N] [pattern]: run every filed seed against the check(s) of its property (meta.json: "check_ids" overrides
+# the default = its property) in parallel on scratch worktrees (tools/pmt.sh); one line each.  /repo is not touched.
 cd /verif
+J=4; [ "$1" = -j ] && { J=$2; shift 2; }
+specs=()
 for d in seeded/${1:-*}; do
-  id=$(python3 -c "import json;print(json.load(open('$d/meta.json'))['property'])")
-  out=$(./mt $d/patch.diff $id 2>&1 | grep '^==' | head -1); echo "$(basename $d) $out"
+  ids=$(python3 -c "import json;m=json.load(open('$d/meta.json'));print(','.join(m.get('check_ids',[m['property']])))")
+  specs+=("$d/patch.diff:$ids")
 done
+tools/pmt.sh -j "$J" "${specs[@]}"
